@@ -50,7 +50,7 @@ def run(p: Project, tier: str) -> Result:
         fi = p.method(ci.key, 'update_state')
         if fi is not None and fi.key not in seen:
             seen.add(fi.key)
-            check_update_state(fi, r)
+            check_update_state(p, ci.key, fi, r)
     check_state_writers(p, nodes, r)
     ws = nodewalk.walks(p)
     for w in ws:
@@ -123,37 +123,95 @@ def flush(pending, sites, pa, where):
                                             f'runs before {where}: the time that follows is charged to the previous (e.g. processing instead of blocked) state')
 
 
-def check_update_state(fi, r):
+BUCKETS = 'total_time_spent_in_states'
+STAMP = ('sub', ('self', 'stats'), ('const', 'last_state_change_time'))
+
+
+def _eff_paths(p, cls_key, fi):
+    ex = paths.Explorer(p, cls_key, tracked=set(), atomic=set(), unroll=1, track_attrs=True, interrupt_edges=False)
+    return [pa for pa in ex.paths(fi) if not pa.raises]
+
+
+def _guard_false(pa):
+    """the path took the branch on which the state or the stamp does not exist yet (nothing to credit)"""
+    for e in pa.events:
+        if e.kind != 'cond' or e.d.get('synthetic'):
+            continue
+        t = e.text.replace(' ', '')
+        if 'isnotNone' in t and not e.polarity:
+            return True
+        if 'isNone' in t and e.polarity:
+            return True
+    return False
+
+
+def _credits(pa):
+    """[(key value, increment as a linear form or None, event)] for every write to a per-state time bucket on the path"""
+    out = []
+    for e in pa.events:
+        if e.kind != 'setitem' or BUCKETS not in e.base:
+            continue
+        inc = None
+        if e.aug and e.aug[0] == 'Add':
+            inc = paths.Explorer.num_of(e.aug[1])
+        elif not e.aug:
+            f = paths.Explorer.num_of(e.value)
+            if f is not None:
+                # new value = <old value of the same bucket> + increment : drop the single atom that reads the bucket (subscript or .get)
+                olds = [k for k in f if (k[0] == 'sub' and k[2] == e.key_val) or (k[0] == 'callres' and BUCKETS in k[1]) or (k[0] == 'const')]
+                olds = [k for k in olds if f[k] == 1]
+                if len(olds) == 1:
+                    inc = {k: c for k, c in f.items() if k != olds[0]}
+        out.append((e.key_val, inc, e))
+    return out
+
+
+def _lf(*terms):
+    out = {}
+    for v, c in terms:
+        out[v] = out.get(v, 0) + c
+    return out
+
+
+def check_update_state(p, cls_key, fi, r):
+    """Symbolic effect of update_state on every path: with state and stamp present, bucket[old state] += now − old stamp exactly once;
+    afterwards state == new and stamp == now.  Cells are tracked, so a stamp refreshed too early changes the computed increment."""
     r.analysed_functions.add(fi.key)
     key = f'{fi.key}::accumulate-then-switch'
     par = [a.arg for a in fi.node.args.args if a.arg != 'self']
     if len(par) < 2:
         r.fail('C17.R1', key, 'unexpected signature', src(fi.module), fi.node.lineno)
         return
-    new, now = par[0], par[1]
-    body = [n for n in fi.node.body if not (isinstance(n, ast.Expr) and isinstance(n.value, ast.Constant))]
-    why = None
-    if not (len(body) >= 3 and isinstance(body[0], ast.If)):
-        why = 'expected: if <state and stamp exist>: accumulate; self.state = new; stamp = now'
+    new, now = ('param', par[0]), ('param', par[1])
+    why = bad = None
+    n_acc = 0
+    for pa in _eff_paths(p, cls_key, fi):
+        r.paths += 1
+        cr = _credits(pa)
+        env = pa.st.env
+        if env.get('self.state') != new:
+            why, bad = 'the new state is not recorded on every path', pa
+        elif env.get("cell:self.stats['last_state_change_time']") != now:
+            why, bad = 'the change time is not stamped with the given time on every path', pa
+        if _guard_false(pa):
+            if cr:
+                why, bad = 'time is credited although no previous state / stamp exists', pa
+            continue
+        n_acc += 1
+        if len(cr) != 1:
+            why, bad = f'{len(cr)} credits to a state bucket on a path with a previous state (expected exactly 1)', pa
+            continue
+        kv, inc, e = cr[0]
+        if kv != ('self', 'state'):
+            why, bad = 'the elapsed time is credited to another bucket than that of the *old* state (the state is switched before the credit)', pa
+        elif inc != _lf((now, 1), (STAMP, -1)):
+            why, bad = 'the credited amount is not `current_time − last_state_change_time` (old stamp)', pa
+    if n_acc == 0:
+        why = why or 'no accumulating path'
+    if why:
+        r.fail('C17.R1', key, why, src(fi.module), fi.node.lineno, bad.describe() if bad else None)
     else:
-        g = ast.unparse(body[0].test).replace(' ', '')
-        if 'self.stateisnotNone' not in g or "self.stats['last_state_change_time']isnotNone" not in g or 'or' in [type(x).__name__.lower() for x in ast.walk(body[0].test) if isinstance(x, ast.Or)]:
-            why = f'accumulation guard is `{ast.unparse(body[0].test)}`'
-        acc = [ast.unparse(x).replace(' ', '') for x in body[0].body]
-        el = [a for a in acc if a.startswith('elapsed=')]
-        if not el or el[0] != f"elapsed={now}-self.stats['last_state_change_time']":
-            why = why or 'elapsed is not `current_time − last_state_change_time`'
-        bucket = [a for a in acc if a.startswith("self.stats['total_time_spent_in_states'][self.state]")]
-        want = "self.stats['total_time_spent_in_states'][self.state]=self.stats['total_time_spent_in_states'].get(self.state,0.0)+elapsed"
-        want2 = "self.stats['total_time_spent_in_states'][self.state]+=elapsed"
-        if not bucket or bucket[0] not in (want, want2):
-            why = why or 'the elapsed time is not added (once) to the bucket of the *current* (old) state'
-        rest = [ast.unparse(x).replace(' ', '') for x in body[1:]]
-        if rest[:2] != [f'self.state={new}', f"self.stats['last_state_change_time']={now}"]:
-            why = why or 'after accumulating, the function must assign the new state and then stamp the change time'
-        if body[0].orelse:
-            why = why or 'unexpected else-branch in the accumulation guard'
-    (r.ok if not why else r.fail)('C17.R1', key, 'old bucket += now − last; state := new; stamp := now' if not why else why, src(fi.module), fi.node.lineno)
+        r.ok('C17.R1', key, 'old bucket += now − last; state := new; stamp := now', src(fi.module), fi.node.lineno)
 
 
 def check_state_writers(p, nodes, r):
@@ -241,67 +299,97 @@ def check_final(p, w, r):
     r.analysed_functions.add(fi.key)
     key = f'{fi.key}::once'
     par = [a.arg for a in fi.node.args.args if a.arg != 'self']
-    T = par[0] if par else '?'
-    txt = [ast.unparse(n).replace(' ', '') for n in walk_no_nested(fi.node) if isinstance(n, (ast.Assign, ast.AugAssign, ast.Expr))]
-    rep_calls = [t for t in txt if t == f'self.update_state_rep({T})']
-    buckets = [t for t in txt if t.startswith("self.stats['total_time_spent_in_states'][self.state]")]
-    why = None
-    if rep_calls:
-        if len(rep_calls) != 1 or buckets:
-            why = 'the final interval is credited more than once'
+    T = ('param', par[0]) if par else None
+    ex = paths.Explorer(p, w.ci.key, tracked=set(), atomic={'update_state_rep', 'update_state'}, unroll=1, track_attrs=True, interrupt_edges=False)
+    why = bad = None
+    n = 0
+    for pa in ex.paths(fi):
+        if pa.raises or pa.status == 'loopcut':
+            continue
+        if _guard_false(pa):
+            continue
+        n += 1
+        cr = _credits(pa)
+        reps = [e for e in pa.events if e.kind == 'call' and e.name in ('update_state_rep',) and e.args and e.args[0] == T]
+        if reps:
+            if len(reps) != 1 or cr:
+                why, bad = 'the final interval is credited more than once', pa
+            continue
+        if len(cr) != 1:
+            why, bad = f'{len(cr)} credits of the final interval to the current state (expected exactly 1)', pa
+            continue
+        kv, inc, e = cr[0]
+        if kv != ('self', 'state'):
+            why, bad = 'the final interval is not credited to the current state', pa
+        elif inc != _lf((T, 1), (STAMP, -1)):
+            why, bad = 'the credited amount is not `T − last_state_change_time`', pa
+    if n == 0:
+        why = why or 'no crediting path'
+    if why:
+        r.fail('C17.R5', key, why, src(fi.module), fi.node.lineno, bad.describe() if bad else None)
     else:
-        if len(buckets) != 1:
-            why = f'{len(buckets)} credits of the final interval to the current state (expected exactly 1)'
-        else:
-            want = f"self.stats['total_time_spent_in_states'][self.state]=self.stats['total_time_spent_in_states'].get(self.state,0.0)+duration"
-            if buckets[0] not in (want, "self.stats['total_time_spent_in_states'][self.state]+=duration"):
-                why = 'the credit is not `bucket[state] += duration`'
-            durs = [t for t in txt if t.startswith('duration=')]
-            if not durs or any(d != f"duration={T}-self.stats['last_state_change_time']" for d in durs):
-                why = why or 'duration is not `T − last_state_change_time`'
-    (r.ok if not why else r.fail)('C17.R5', key, 'credits [last change, T] once' if not why else why, src(fi.module), fi.node.lineno)
+        r.ok('C17.R5', key, 'credits [last change, T] once', src(fi.module), fi.node.lineno)
 
 
 def check_occupancy(p, w, r):
+    """_update_worker_occupancy(action): on every path that changes num_workers or restamps, the time since the last occupancy change is
+    first credited to the bucket of the *old* occupancy; ADD / REMOVE change num_workers by exactly +1 / −1."""
     fi = w.methods.get('_update_worker_occupancy')
     if fi is None:
         return
     r.analysed_functions.add(fi.key)
     key = f'{fi.key}::accumulate-before-change'
-    why = None
-    n_br = 0
-    for n in walk_no_nested(fi.node):
-        if isinstance(n, ast.If) and 'action' in ast.unparse(n.test):
-            act = ast.unparse(n.test)
-            stmts = [ast.unparse(x).replace(' ', '') for x in n.body]
-            flat = []
-            for x in n.body:
-                if isinstance(x, ast.If):
-                    flat += [ast.unparse(y).replace(' ', '') for y in x.body]
-                else:
-                    flat.append(ast.unparse(x).replace(' ', ''))
-            if not any(s_.startswith('elapsed=') for s_ in flat):
-                continue
-            n_br += 1
-            el = [i for i, s_ in enumerate(flat) if s_ == 'elapsed=self.env.now-self.time_last_occupancy_change']
-            acc = [i for i, s_ in enumerate(flat) if s_ == 'self.time_per_work_occupancy[self.num_workers]+=elapsed']
-            chg = [i for i, s_ in enumerate(flat) if s_.startswith('self.num_workers+=') or s_.startswith('self.num_workers-=')]
-            stamp = [i for i, s_ in enumerate(flat) if s_ == 'self.time_last_occupancy_change=self.env.now']
-            if len(el) != 1 or len(acc) != 1 or len(stamp) != 1:
-                why = why or f'branch `{act}`: expected one elapsed computation, one accumulation into bucket[num_workers] and one stamp'
-                continue
-            if not (el[0] < acc[0] < stamp[0]):
-                why = why or f'branch `{act}`: elapsed → accumulate → stamp order violated'
-            if chg and chg[0] < acc[0]:
-                why = why or f'branch `{act}`: num_workers changes before the elapsed time is credited to the old occupancy'
-            if "'ADD'" in act and flat[chg[0]] != 'self.num_workers+=1' if chg else False:
-                why = why or 'ADD does not increase num_workers by one'
-            if "'REMOVE'" in act and (not chg or flat[chg[0]] != 'self.num_workers-=1'):
-                why = why or 'REMOVE does not decrease num_workers by one'
-    if n_br < 3:
-        why = why or f'only {n_br} of the ADD / REMOVE / UPDATE branches found'
-    (r.ok if not why else r.fail)('C17.R6', key, 'ADD / REMOVE / UPDATE: accumulate into the old occupancy, then change, then stamp' if not why else why,
-                                  src(fi.module), fi.node.lineno)
+    ex = paths.Explorer(p, w.ci.key, tracked=set(), atomic=set(), unroll=1, track_attrs=True, interrupt_edges=False)
+    par = [a.arg for a in fi.node.args.args if a.arg != 'self']
+    why = bad = None
+    kinds = set()
+    OLD_N, OLD_T = ('self', 'num_workers'), ('self', 'time_last_occupancy_change')
+    for pa in ex.paths(fi):
+        if pa.raises:
+            continue
+        env = pa.st.env
+        action = None
+        for e in pa.events:
+            if e.kind == 'cond' and e.polarity and e.d.get('operands') and e.operands[0] == 'Eq' and e.operands[1] == ('param', par[0] if par else '?') \
+                    and e.operands[2] and e.operands[2][0] == 'const':
+                action = e.operands[2][1]
+        newn = env.get('self.num_workers', OLD_N)
+        dn = None
+        f = paths.Explorer.num_of(newn)
+        if f is not None:
+            g = dict(f)
+            g[OLD_N] = g.get(OLD_N, 0) - 1
+            g = {k: c for k, c in g.items() if c}
+            dn = 0 if not g else g.get(('one',)) if set(g) == {('one',)} else None
+        restamped = 'self.time_last_occupancy_change' in env
+        credits = [e for e in pa.events if e.kind == 'setitem' and 'time_per_work_occupancy' in e.base]
+        if not restamped and dn == 0 and not credits:
+            continue            # nothing happens on this path
+        kinds.add(action)
+        if len(credits) != 1:
+            why, bad = f'{len(credits)} credits to the occupancy buckets on a path that changes the occupancy or its stamp (expected 1)', pa
+            continue
+        c = credits[0]
+        inc = paths.Explorer.num_of(c.aug[1]) if c.aug and c.aug[0] == 'Add' else None
+        epoch = c.epoch
+        if c.key_val != OLD_N:
+            why, bad = 'num_workers changes before the elapsed time is credited: the time is charged to the new occupancy, not the old one', pa
+        elif inc != _lf((('now', epoch), 1), (OLD_T, -1)):
+            why, bad = 'the credited amount is not `now − time_last_occupancy_change` (old stamp)', pa
+        elif env.get('self.time_last_occupancy_change', (None,))[0] != 'now':
+            why, bad = 'the occupancy stamp is not refreshed with the clock', pa
+        elif action == 'ADD' and dn != 1:
+            why, bad = 'ADD does not increase num_workers by one', pa
+        elif action == 'REMOVE' and dn != -1:
+            why, bad = 'REMOVE does not decrease num_workers by one', pa
+        elif action not in ('ADD', 'REMOVE') and dn != 0:
+            why, bad = f'action {action!r} changes num_workers', pa
+    if not why and not {'ADD', 'REMOVE'} <= kinds:
+        why = f'only the branches {sorted(str(k) for k in kinds)} of ADD / REMOVE / UPDATE found'
+    if why:
+        r.fail('C17.R6', key, why, src(fi.module), fi.node.lineno, bad.describe() if bad else None)
+    else:
+        r.ok('C17.R6', key, 'ADD / REMOVE / UPDATE: accumulate into the old occupancy, then change, then stamp', src(fi.module), fi.node.lineno)
 
 
 # ------------------------------------------------------------------------------------------- R4
@@ -346,53 +434,102 @@ def eval_sign(node, rep):
     raise NotSignTest(ast.unparse(node))
 
 
+def _cell_truth(op, lv, rv, cell):
+    """truth of a comparison under the sign class `cell` of the previous (processing, blocked) pair; None if it is not about that pair"""
+    REP = ('self', 'state_rep')
+
+    def val(v):
+        if v == REP:
+            return cell
+        if v is not None and v[0] == 'sub' and v[1] == REP and v[2][0] == 'const' and v[2][1] in (0, 1):
+            return cell[v[2][1]]
+        if v is not None and v[0] == 'const' and v[1] == 0:
+            return 0
+        if v is not None and v[0] == 'tuple' and all(x == ('const', 0) for x in v[1]):
+            return tuple(0 for _ in v[1])
+        return None
+    a, b = val(lv), val(rv)
+    if a is None or b is None or (lv != REP and (lv is None or lv[0] != 'sub') and rv != REP and (rv is None or rv[0] != 'sub')):
+        return None
+    if op == 'Eq':
+        return a == b
+    if op == 'NotEq':
+        return a != b
+    if isinstance(a, tuple) or isinstance(b, tuple):
+        raise NotSignTest('ordering on tuples')
+    return {'Gt': a > b, 'GtE': a >= b, 'Lt': a < b, 'LtE': a <= b}.get(op)
+
+
 def check_machine_groups(p, r):
+    """Path rule on Machine.update_state_rep: for each sign class of the previous (processing, blocked) pair, every path consistent with it
+    credits exactly one member of each documented state group, and with exactly the elapsed time (now − old stamp)."""
     ci = p.cls('nodes/machine.py', 'Machine')
     fi = ci.methods.get('update_state_rep')
     if fi is None:
         raise AnalysisError('Machine.update_state_rep missing')
     r.analysed_functions.add(fi.key)
-    guards = {}          # bucket -> list of tests
-    amounts_ok = True
-    bad_amount = None
-    for n in walk_no_nested(fi.node):
-        if isinstance(n, ast.If) and 'previous_state_rep' in ast.unparse(n.test):
-            for s_ in n.body:
-                if isinstance(s_, ast.AugAssign) and "total_time_spent_in_states" in ast.unparse(s_.target):
-                    name = s_.target.slice.value if isinstance(s_.target.slice, ast.Constant) else ast.unparse(s_.target.slice)
-                    guards.setdefault(name, []).append(n.test)
-                    if not (isinstance(s_.op, ast.Add) and ast.unparse(s_.value) == 'elapsed'):
-                        amounts_ok = False
-                        bad_amount = (name, ast.unparse(s_))
+    par = [a.arg for a in fi.node.args.args if a.arg != 'self']
+    now = ('param', par[0]) if par else None
+    ex = paths.Explorer(p, ci.key, tracked=set(), atomic={'_count_worker_state'}, unroll=1, track_attrs=True, interrupt_edges=False)
+    pas = [pa for pa in ex.paths(fi) if not pa.raises and not _guard_false(pa)]
     cells = [(0, 0), (0, 1), (1, 0), (1, 1)]     # sign classes of (processing, blocked); tests compare with 0 only
-    for gname, members in GROUPS.items():
-        key = f'{fi.key}::{gname}-partition'
-        why = None
+    bad_amount = None
+    stamp_bad = None
+    per_cell = {c: [] for c in cells}
+    problem = None
+    for pa in pas:
+        r.paths += 1
+        credited = []
+        for e in pa.events:
+            if e.kind == 'setitem' and BUCKETS in e.base and e.key_val and e.key_val[0] == 'const':
+                inc = paths.Explorer.num_of(e.aug[1]) if e.aug and e.aug[0] == 'Add' else None
+                credited.append(e.key_val[1])
+                if inc != _lf((now, 1), (STAMP, -1)):
+                    bad_amount = (e.key_val[1], pa)
+        if pa.st.env.get("cell:self.stats['last_state_change_time']") != now:
+            stamp_bad = pa
         try:
             for cell in cells:
-                hits = []
-                for m in members:
-                    ts = guards.get(m)
-                    if not ts:
-                        why = f'no guarded increment for {m}'
-                        break
-                    if any(eval_sign(t, cell) for t in ts):
-                        hits.append(m)
-                if why:
-                    break
-                if len(hits) != 1:
+                ok = True
+                for e in pa.events:
+                    if e.kind == 'cond' and e.d.get('operands'):
+                        t = _cell_truth(e.operands[0], e.operands[1], e.operands[2], cell)
+                        if t is not None and t != e.polarity:
+                            ok = False
+                            break
+                if ok:
+                    per_cell[cell].append((credited, pa))
+        except NotSignTest as ex_:
+            problem = f'a guard is not a sign test of the previous (processing, blocked) pair: {ex_}'
+    for gname, members in GROUPS.items():
+        key = f'{fi.key}::{gname}-partition'
+        why = problem
+        bad = None
+        if not pas:
+            why = 'no accumulating path'
+        for cell in cells:
+            if why:
+                break
+            if not per_cell[cell]:
+                why = f'no path of update_state_rep is consistent with the sign class {cell}'
+                break
+            for credited, pa in per_cell[cell]:
+                hits = [m for m in members if m in credited]
+                n_hits = sum(credited.count(m) for m in members)
+                if n_hits != 1:
                     sign = f'processing{"=0" if cell[0] == 0 else ">0"}, blocked{"=0" if cell[1] == 0 else ">0"}'
-                    why = (f'for ({sign}) the states {hits or "∅"} of {members} are credited: the group is not a partition, its totals '
-                           f'{"exceed" if len(hits) > 1 else "fall short of"} the elapsed time')
+                    why = (f'for ({sign}) the states {hits or "∅"} of {members} are credited{" more than once" if n_hits > len(hits) else ""}: the group is not a '
+                           f'partition, its totals {"exceed" if n_hits > 1 else "fall short of"} the elapsed time')
+                    bad = pa
                     break
-        except NotSignTest as e:
-            why = f'a guard is not a sign test of the previous (processing, blocked) pair: {e}'
-        if not amounts_ok:
-            why = why or f'bucket {bad_amount[0]} is credited with `{bad_amount[1]}`, not with exactly `elapsed`'
-        (r.ok if not why else r.fail)('C17.R4', key, f'{members}: exactly one member holds in each of the 4 sign classes' if not why else why,
-                                      src(fi.module), fi.node.lineno)
-    # elapsed and stamping order
-    txt = [ast.unparse(n).replace(' ', '') for n in walk_no_nested(fi.node) if isinstance(n, ast.Assign)]
+        if bad_amount and not why:
+            why, bad = f'bucket {bad_amount[0]} is not credited with exactly the elapsed time (now − old stamp)', bad_amount[1]
+        if why:
+            r.fail('C17.R4', key, why, src(fi.module), fi.node.lineno, bad.describe() if bad else None)
+        else:
+            r.ok('C17.R4', key, f'{members}: exactly one member credited in each of the 4 sign classes', src(fi.module), fi.node.lineno)
     key = f'{fi.key}::elapsed-and-stamp'
-    ok = "elapsed=current_time-self.stats['last_state_change_time']" in txt and "self.stats['last_state_change_time']=current_time" in txt
-    (r.ok if ok else r.fail)('C17.R1', key, 'elapsed = now − last stamp; stamp := now' if ok else 'elapsed / stamp computation changed', src(fi.module), fi.node.lineno)
+    allp = [pa for pa in ex.paths(fi) if not pa.raises]
+    ok = bool(allp) and all(pa.st.env.get("cell:self.stats['last_state_change_time']") == now for pa in allp) and not bad_amount
+    (r.ok if ok else r.fail)('C17.R1', key, 'elapsed = now − last stamp; stamp := now' if ok else 'the amount credited is not now − old stamp, or the stamp is not refreshed on every path',
+                             src(fi.module), fi.node.lineno)
